@@ -556,7 +556,11 @@ func (p *jsonPathParser) _createBasicCompareQuery(
 func (p *jsonPathParser) pushCompareEQ(
 	leftParam, rightParam *syntaxBasicCompareParameter) {
 	if leftParam.isLiteral {
-		rightParam, leftParam = leftParam, rightParam
+		// Keep a real literal on the right-hand side so that the typed
+		// comparator below is chosen for "$.a == 1" as it is for "1 == $.a".
+		if _, ok := rightParam.param.(*syntaxQueryParamLiteral); !ok {
+			rightParam, leftParam = leftParam, rightParam
+		}
 	}
 
 	if rightLiteralParam, ok := rightParam.param.(*syntaxQueryParamLiteral); ok {
